@@ -1142,6 +1142,21 @@ async def _run(prog, seed, workdir, wall, want_db, keep_objects):
     return obs
 
 
+def warm_up():
+    """Import the engine (on a loaded machine this alone can take minutes; checks restart their soft
+    budget clock afterwards so that the budget is spent on cases, not on imports)."""
+    from vf import perturb
+
+    perturb.install()
+    import streamflow.main  # noqa: F401
+    import streamflow.workflow.combinator  # noqa: F401
+    import streamflow.workflow.executor  # noqa: F401
+    import vf.harness.connectors  # noqa: F401
+
+    classes()
+    install_monitor()
+
+
 def run_program(prog, seed, workdir, wall=60.0, want_db=False, keep_objects=False):
     """One execution in a fresh event loop.  seed=None runs with perturbation disabled (the default
     asyncio order)."""
